@@ -106,26 +106,55 @@ func encTps(ts []tp) string {
 	return strings.Join(l, ";")
 }
 
-// (Rack, Host, Port) <-> address token
+// (Rack, Host, Port) <-> address token: bits 40.. of the token are the rack, the rest the host
+const rackShift = 40
+
 func hostOf(addr uint64) (string, int32) {
 	if addr == 0 {
 		return "", 0
 	}
-	return fmt.Sprintf("h%x", addr), 9092
+	return fmt.Sprintf("h%x", addr&(1<<rackShift-1)), 9092
 }
 
-func addrOf(host string, port int32) string {
-	if host == "" && port == 0 {
+func rackOf(addr uint64) string {
+	if addr>>rackShift == 0 {
+		return ""
+	}
+	return fmt.Sprintf("r%x", addr>>rackShift)
+}
+
+func addrOf(host string, port int32) string { return addrOfR(host, port, "") }
+
+func addrOfR(host string, port int32, rack string) string {
+	if host == "" && port == 0 && rack == "" {
 		return "0"
 	}
 	if strings.HasPrefix(host, "h") && port == 9092 {
-		return host[1:]
+		h, err := strconv.ParseUint(host[1:], 16, 64)
+		if err == nil && (rack == "" || strings.HasPrefix(rack, "r")) {
+			if rack != "" {
+				rk, _ := strconv.ParseUint(rack[1:], 16, 64)
+				h |= rk << rackShift
+			}
+			return fmt.Sprintf("%x", h)
+		}
 	}
-	return "?" + host + ":" + strconv.Itoa(int(port))
+	return "?" + host + ":" + strconv.Itoa(int(port)) + ":" + rack
 }
 
 func encBroker(b protocol.Broker) string {
-	return zs(int64(b.ID)) + "@" + addrOf(b.Host, b.Port)
+	return zs(int64(b.ID)) + "@" + addrOfR(b.Host, b.Port, b.Rack)
+}
+
+func encIDs(l []int32) string {
+	if len(l) == 0 {
+		return "."
+	}
+	x := make([]string, len(l))
+	for i, v := range l {
+		x[i] = zs(int64(v))
+	}
+	return strings.Join(x, "+")
 }
 
 func encCluster(c protocol.Cluster) string {
@@ -174,13 +203,14 @@ func encMd(m *meta.Response) string {
 	}
 	bs := make([]string, len(m.Brokers))
 	for i, b := range m.Brokers {
-		bs[i] = zs(int64(b.NodeID)) + "@" + addrOf(b.Host, b.Port)
+		bs[i] = zs(int64(b.NodeID)) + "@" + addrOfR(b.Host, b.Port, b.Rack)
 	}
 	tsl := make([]string, len(m.Topics))
 	for i, t := range m.Topics {
 		ps := make([]string, len(t.Partitions))
 		for j, p := range t.Partitions {
-			ps[j] = zs(int64(p.PartitionIndex)) + "/" + zs(int64(p.ErrorCode)) + "/" + zs(int64(p.LeaderID))
+			ps[j] = zs(int64(p.PartitionIndex)) + "/" + zs(int64(p.ErrorCode)) + "/" + zs(int64(p.LeaderID)) +
+				"/" + encIDs(p.ReplicaNodes) + "/" + encIDs(p.IsrNodes) + "/" + encIDs(p.OfflineReplicas)
 		}
 		tsl[i] = nm(t.Name) + "/" + zs(int64(t.ErrorCode)) + "/" + kvfmt.Bool(t.IsInternal) + ":" + dot(strings.Join(ps, ","))
 	}
@@ -282,8 +312,12 @@ func genMd(r *rand.Rand, o mdOpts) (*meta.Response, map[string]bool) {
 		if o.uniqueAddr {
 			addr = uint64(int64(idv) + 16)
 		}
+		if !o.uniqueAddr && r.Intn(4) == 0 {
+			addr |= uint64(1+r.Intn(3)) << rackShift
+			feat["rack"] = true
+		}
 		h, p := hostOf(addr)
-		m.Brokers = append(m.Brokers, meta.ResponseBroker{NodeID: idv, Host: h, Port: p})
+		m.Brokers = append(m.Brokers, meta.ResponseBroker{NodeID: idv, Host: h, Port: p, Rack: rackOf(addr)})
 	}
 	if nb > 0 && !o.uniqueAddr && r.Intn(12) == 0 { // a duplicated node id (last wins in the map)
 		d := m.Brokers[r.Intn(nb)]
@@ -350,11 +384,58 @@ func genMd(r *rand.Rand, o mdOpts) (*meta.Response, map[string]bool) {
 			if p.LeaderID == -1 {
 				p.ErrorCode = 5
 			}
+			genReplicas(r, m, &p, feat, true)
 			t.Partitions = append(t.Partitions, p)
 		}
 		m.Topics = append(m.Topics, t)
 	}
 	return m, feat
+}
+
+// replica / in-sync / offline sets of a partition: the ISR is the replica list, a shrunk one (down to
+// the leader alone, or empty) or the same brokers in another order
+func genReplicas(r *rand.Rand, m *meta.Response, p *meta.ResponsePartition, feat map[string]bool, offline bool) {
+	p.ReplicaNodes, p.IsrNodes, p.OfflineReplicas = []int32{}, []int32{}, []int32{}
+	if p.LeaderID >= 0 {
+		p.ReplicaNodes = append(p.ReplicaNodes, p.LeaderID)
+	}
+	for _, i := range r.Perm(len(m.Brokers)) {
+		if len(p.ReplicaNodes) >= 3 {
+			break
+		}
+		if idv := m.Brokers[i].NodeID; idv != p.LeaderID {
+			p.ReplicaNodes = append(p.ReplicaNodes, idv)
+		}
+	}
+	if r.Intn(8) == 0 {
+		p.ReplicaNodes = append(p.ReplicaNodes, 42) // a replica that is not in the broker list
+		feat["replica-missing"] = true
+	}
+	switch r.Intn(5) {
+	case 0:
+		p.IsrNodes = append(p.IsrNodes, p.ReplicaNodes...)
+		feat["isr=replicas"] = true
+	case 1:
+		if len(p.ReplicaNodes) > 0 {
+			p.IsrNodes = []int32{p.ReplicaNodes[0]}
+		}
+		feat["isr-shrunk-to-1"] = true
+	case 2:
+		feat["isr-empty"] = true
+	case 3:
+		for i := len(p.ReplicaNodes) - 1; i >= 0; i-- {
+			p.IsrNodes = append(p.IsrNodes, p.ReplicaNodes[i])
+		}
+		feat["isr-reordered"] = true
+	default:
+		if n := len(p.ReplicaNodes); n > 1 {
+			p.IsrNodes = append(p.IsrNodes, p.ReplicaNodes[:n-1]...)
+			if offline {
+				p.OfflineReplicas = []int32{p.ReplicaNodes[n-1]}
+			}
+		}
+		feat["isr-shrunk"] = true
+	}
 }
 
 // a request naming topics/partitions, biased towards what the layout knows
@@ -754,6 +835,33 @@ func partA(r *rand.Rand, n int) {
 		res := kafka.VerifFilterMetadataResponse(&meta.Request{TopicNames: names}, m)
 		emit("filter", encNames(names)+" "+encMd(m), encMd(res), kvfmt.Set(feat))
 	}
+	// Client.Metadata over the cache: the public view, field by field
+	for i := 0; i < n; i++ {
+		m, feat := genMd(r, mdOpts{maxTopics: 5})
+		p := kafka.VerifNewPool(nil, kafka.TCP("ctrl:9092"))
+		p.Update(cloneMd(m), nil)
+		var names []string
+		if r.Intn(4) != 0 {
+			for j, k := 0, 1+r.Intn(3); j < k; j++ {
+				if len(m.Topics) > 0 && r.Intn(4) != 0 {
+					names = append(names, m.Topics[r.Intn(len(m.Topics))].Name)
+				} else {
+					names = append(names, genName(r))
+				}
+			}
+		} else {
+			feat["names=nil"] = true
+		}
+		cl := &kafka.Client{Addr: kafka.TCP("ctrl:9092"), Transport: rtFunc(func(ctx context.Context, req kafka.Request) (kafka.Response, error) {
+			return p.RoundTrip(ctx, req)
+		})}
+		res, err := cl.Metadata(context.Background(), &kafka.MetadataRequest{Topics: names})
+		out := "err"
+		if err == nil {
+			out = encClientMetadata(res)
+		}
+		emit("cmeta", encNames(names)+" "+encMd(m), out, kvfmt.Set(feat))
+	}
 	// update sequences
 	for i := 0; i < n; i++ {
 		feat := map[string]bool{}
@@ -803,11 +911,11 @@ func partA(r *rand.Rand, n int) {
 			cs := make([]string, len(ids))
 			for j, k := range ids {
 				b := conns[int32(k)]
-				cs[j] = zs(int64(k)) + "=" + zs(int64(b.ID)) + "@" + addrOf(b.Host, int32(b.Port))
+				cs[j] = zs(int64(k)) + "=" + zs(int64(b.ID)) + "@" + addrOfR(b.Host, int32(b.Port), b.Rack)
 			}
 			res = append(res, encMd(md)+"^"+es+"^"+encCluster(layout)+"^"+dot(strings.Join(cs, ","))+"^"+kvfmt.Bool(ready))
 		}
-		emit("upd", strings.Join(args, " "), strings.Join(res, "+"), kvfmt.Set(feat))
+		emit("upd", strings.Join(args, " "), strings.Join(res, "#"), kvfmt.Set(feat))
 	}
 	// sendRequest with a dial function that fails: which connection group was used
 	for i := 0; i < 2*n; i++ {
@@ -881,6 +989,51 @@ func partA(r *rand.Rand, n int) {
 	}
 }
 
+type rtFunc func(context.Context, kafka.Request) (kafka.Response, error)
+
+func (f rtFunc) RoundTrip(ctx context.Context, _ net.Addr, req kafka.Request) (kafka.Response, error) {
+	return f(ctx, req)
+}
+
+func errCode(err error) string {
+	if err == nil {
+		return "0"
+	}
+	var ke kafka.Error
+	if errors.As(err, &ke) {
+		return zs(int64(ke))
+	}
+	return "?" + strings.ReplaceAll(err.Error(), " ", "_")
+}
+
+// the result of Client.Metadata: controller~brokers~topics, every broker as id@address-token
+func encClientMetadata(res *kafka.MetadataResponse) string {
+	eb := func(b kafka.Broker) string { return zs(int64(b.ID)) + "@" + addrOfR(b.Host, int32(b.Port), b.Rack) }
+	ebs := func(l []kafka.Broker) string {
+		if len(l) == 0 {
+			return "."
+		}
+		x := make([]string, len(l))
+		for i, b := range l {
+			x[i] = eb(b)
+		}
+		return strings.Join(x, "+")
+	}
+	bs := make([]string, len(res.Brokers))
+	for i, b := range res.Brokers {
+		bs[i] = eb(b)
+	}
+	ts := make([]string, len(res.Topics))
+	for i, t := range res.Topics {
+		ps := make([]string, len(t.Partitions))
+		for j, p := range t.Partitions {
+			ps[j] = zs(int64(p.ID)) + "/" + errCode(p.Error) + "/" + eb(p.Leader) + "/" + ebs(p.Replicas) + "/" + ebs(p.Isr)
+		}
+		ts[i] = nm(t.Name) + "/" + kvfmt.Bool(t.Internal) + "/" + errCode(t.Error) + ":" + dot(strings.Join(ps, ","))
+	}
+	return eb(res.Controller) + "~" + dot(strings.Join(bs, ",")) + "~" + dot(strings.Join(ts, ";"))
+}
+
 // "h<addr>:9092" with addr = id+16 -> "b<id>"; the control address -> "c"
 func targetOf(address string) string {
 	if address == "ctrl:9092" {
@@ -937,10 +1090,14 @@ func mutateMd(r *rand.Rand, m *meta.Response) *meta.Response {
 			}
 			c.Brokers = l
 		}
-	case 2:
+	case 2: // re-registered under the same id: new address, or only a new rack
 		if len(c.Brokers) > 0 {
 			i := r.Intn(len(c.Brokers))
-			c.Brokers[i].Host, c.Brokers[i].Port = hostOf(uint64(1 + r.Intn(9)))
+			if r.Intn(2) == 0 {
+				c.Brokers[i].Host, c.Brokers[i].Port = hostOf(uint64(1 + r.Intn(9)))
+			} else {
+				c.Brokers[i].Rack = fmt.Sprintf("r%x", 4+r.Intn(3))
+			}
 		}
 	}
 	for i := range c.Topics {
@@ -963,11 +1120,15 @@ func main() {
 	rec := flag.Int("rec", 2, "number of refresh-recovery scenarios")
 	fu := flag.Int("fu", 2, "number of concurrent-first-use scenarios")
 	fuN := flag.Int("fun", 40, "fresh transports per first-use scenario")
+	sasl := flag.Int("sasl", 4, "number of SASL connection set-up scenarios")
 	flag.Parse()
 	r := rand.New(rand.NewSource(*seed))
 	out = bufio.NewWriterSize(os.Stdout, 1<<20)
 	defer out.Flush()
 	partA(r, *count)
+	for i := 0; i < *sasl; i++ {
+		runSasl(r, i)
+	}
 	// breakers: after 3 scenarios of a family exceeded their bound (a refresh that never comes)
 	// the rest of the run is emitted as NOT-RUN; the check has its failing cases by then
 	for i := 0; i < *e2e; i++ {
